@@ -107,9 +107,16 @@ def run_jobs(jobs, workers=None, progress=None, group_size=None):
                 try:
                     results[i] = z.run(jobs[i])
                 except Exception as exc:  # noqa: BLE001
-                    results[i] = {"harness_error": f"zygote failure: {exc}"}
+                    # the zygote itself died (killed, out of memory): restart it and
+                    # retry the job once before giving up
                     z.close()
                     z = Zygote(key)
+                    try:
+                        results[i] = z.run(jobs[i])
+                    except Exception as exc2:  # noqa: BLE001
+                        results[i] = {"harness_error": f"zygote failure: {exc}; {exc2}"}
+                        z.close()
+                        z = Zygote(key)
                 with lock:
                     done[0] += 1
                     if progress:
